@@ -85,6 +85,11 @@ def check_outcome(ctx, case, out, r, cands, ballots):
                 et in ("IndexError", "ZeroDivisionError", "KeyError") and observed_overquota():
             mech = "stv-overquota"
             ctx.count("overquota_classified_on_observed_tallies")
+        if mech == "stv-overquota" and et in ("IndexError", "KeyError") and not observed_overquota():
+            # the reference finds an over-quota round on SOME branch of this profile, but the count that raised never met
+            # one: this failure is not the recorded mechanism
+            mech = None
+            ctx.count("overquota_not_observed_not_suppressed")
         ctx.fail(f"{rule}: {et} escapes for valid input: {str(out.exc)[:120]}", case,
                  {"exception": et, "message": str(out.exc)[:300], "tb": out.tb[-900:] if out.tb else None}, mech=mech)
         return
@@ -113,7 +118,8 @@ def check_outcome(ctx, case, out, r, cands, ballots):
     elif len(el) != mexp or len(set(el)) != len(el):
         ctx.fail(f"{rule}: elected {len(el)} candidates, expected {mexp}", case,
                  {"elected": el, "outcome": canon.outcome_c(e)},
-                 mech=oracle.classify(cfg, cands, ballots, "seatcount", r.events))
+                 mech=(oracle.classify(cfg, cands, ballots, "seatcount", r.events)
+                       if (len(el) > mexp and observed_overquota()) else None))
         return
     # partition + monotone per round
     prev_el, prev_x = set(), set()
@@ -167,7 +173,13 @@ def check_case(ctx, case, max_runs):
     prof = ctx.guard("build_profile", canon.build_profile, spec)
     if prof is None:
         return
+    # python-call budget: PluralityVeto always; a sample of every other rule except the pairwise ones (k! ballot_fill); the
+    # sample is chosen by case hash so that it does not move the workload's random stream
     budget = 5_000_000 if cfg["rule"] in rules.MULTI_ROUND and (cfg["rule"] == "PluralityVeto" or ctx.rnd.random() < 0.15) else None
+    if budget is None and cfg["rule"] not in rules.MULTI_ROUND and cfg["rule"] not in rules.PAIRWISE and \
+            int(canon.jhash([cfg, spec])[:2], 16) % 8 == 0:
+        budget = 5_000_000
+        ctx.count("single_round_runs_with_call_budget")
     ctx.count("tag_" + case.get("tag", "?"))
     ctx.count("rule_" + cfg["rule"])
     script0 = case.get("script")
